@@ -189,12 +189,14 @@ impl Mode {
 
     /// Convenience function to push a value onto the stack
     pub fn push_value(&self, block: &mut Block, value: Expression) -> Result<(), Error> {
-        match self {
-            Mode::X86 => block.assign(self.sp(), Expr::sub(self.sp().into(), expr_const(4, 32))?),
-            Mode::Amd64 => block.assign(self.sp(), Expr::sub(self.sp().into(), expr_const(8, 64))?),
+        let new_sp = match self {
+            Mode::X86 => Expr::sub(self.sp().into(), expr_const(4, 32))?,
+            Mode::Amd64 => Expr::sub(self.sp().into(), expr_const(8, 64))?,
         };
 
-        block.store(self.sp().into(), value);
+        // the pushed value is read before the stack pointer changes (`push rsp`)
+        block.store(new_sp.clone(), value);
+        block.assign(self.sp(), new_sp);
         Ok(())
     }
 }
